@@ -243,6 +243,59 @@ def check_sibling_selectors(ctx, out, rule="C18.siblings"):
         out.inst(rule, 0, 1)
 
 
+ADAPTORS = r"Iterator::(filter|filter_map|skip|skip_while|take|take_while|map_while|step_by|rev|chain|flat_map|flatten|scan|peekable|dedup\w*|unique\w*|sorted\w*)$"
+
+
+def check_index_alignment(ctx, out, rule, name):
+    """A task finds its block again by index (`file_blocks.blocks_with_context[block_idx]`): the index
+    captured at spawn time must count positions in that very vector - `iter().enumerate()` directly (or a zip
+    with a counter over the direct iteration), not positions in a filtered / skipped / reversed sequence, in
+    which case the task would look at another block (and panic on `attributes["..."]` when that one lacks the
+    attribute)."""
+    n = 0
+    vb = ctx.validate_body(name)
+    if vb is None:
+        out.inst(rule, 0, 0)
+        return
+    region = []
+    for b in list(ctx.facts.with_descendants(vb)) + list(ctx.validator_bodies(name)):
+        for x in ctx.facts.with_descendants(b):
+            if x not in region:
+                region.append(x)
+    spawners = {b.id for b in region if any(callee_matches(t, r"tokio::task::JoinSet::<T>::spawn") for bi, t in b.calls())}
+    # is an index used to find a block again in a task?
+    used = False
+    for tb in region:
+        if not tb.coroutine or tb.id in spawners:
+            continue
+        for bj, tj in tb.calls():
+            if callee_matches(tj, r"vec::Vec<.*> as std::ops::Index<.*>>::index$|<impl .*Index<.*> for std::vec::Vec<.*>>::index$|slice::<impl .*Index<I> for \\[T\\]>::index$") and len(tj["args"]) > 1 \
+                    and re.search(r"usize", (tj.get("arg_tys") or ["", ""])[1]):
+                used = True
+    for b in region:
+        if b.coroutine and b.id not in spawners:
+            continue
+        Ev = ctx.expr(b)
+        for bi, t in b.calls():
+            if callee_matches(t, r"Iterator::zip$") and len(t["args"]) == 2:
+                # `iter().zip(0usize..)`: a counter running along the sequence - the same as enumerate
+                ce = Ev.operand(t["args"][1])
+                if not (ce[0] == "agg" and re.search(r"Range(From)?$", ce[1])):
+                    continue
+            elif not callee_matches(t, r"Iterator::enumerate$") or not t["args"]:
+                continue
+            e = Ev.operand(t["args"][0])
+            if "blocks_with_context" not in render(e, 3000) and not any(c[0] == "call" and re.search(ADAPTORS, c[1]) for c in walk(e)):
+                continue
+            through = sorted({c[1].split("::")[-1] for c in walk(e) if c[0] == "call" and re.search(ADAPTORS, c[1])})
+            if through and used:
+                out.viol(rule, "%s|%s|filtered-enumerate" % (rule, name), ctx.where(b, t["span"]),
+                         "`enumerate()` counts the items of a sequence that went through %s, but the spawned task uses the index to find its block again in the unfiltered vector: as soon as a block without the attribute precedes one with it, the task reads another block (and `attributes[..]` panics there)" % through)
+            elif used:
+                n += 1
+    out.inst(rule, n, 0, ["enumerate() directly over blocks_with_context; the task indexes the same vector"])
+
+
 def task_resolver(ctx, co, task):
     """labels of the task body -> labels at the spawn site. Captures of an async block are resolved
     through the closure environment; when the task is the body of an `async fn` of the crate
